@@ -186,10 +186,25 @@ Section CacheProofs.
     unfold gen_core_of_reply in H. destruct b; [exact H | discriminate].
   Qed.
 
+  (* the generated refinement step (Gen/GenUnsatCore.v gen_e2e_miss), read back as the case analysis the proofs use:
+     a sat answer with an invalid model is the only one that is solved again, and only if refine() changed the text *)
+  Lemma e2e_eq : forall cache cores q,
+    e2e cache cores q =
+    if check (qids id formula q) cores then Unsat None
+    else match solve_low_level id formula model low cache false q with
+         | Sat m false => if refine_changes q then solve_low_level id formula model low cache true q else Sat m false
+         | r => r
+         end.
+  Proof.
+    intros cache cores q. unfold solve_end_to_end, gen_e2e_miss.
+    destruct (check (qids id formula q) cores); [reflexivity|].
+    destruct (solve_low_level id formula model low cache false q) as [m [|] | co | |]; simpl; try reflexivity.
+  Qed.
+
   Lemma e2e_core_origin : forall cache cores q c,
     e2e cache cores q = Unsat (Some c) -> exists b, low b q = Unsat (Some c).
   Proof.
-    intros cache cores q c H. unfold solve_end_to_end, solve_low_level in H.
+    intros cache cores q c H. rewrite e2e_eq in H. unfold solve_low_level in H.
     destruct (check _ cores); [discriminate|].
     destruct (from_result id model cache (low false q)) as [m [|] | co | |] eqn:E.
     - discriminate.
@@ -240,8 +255,8 @@ Section CacheProofs.
     intros qs cores q Hst Hw Hc Hq.
     destruct (check (qids id formula q) cores) eqn:Hhit.
     - rewrite (Hc q Hq (hit_unsat qs cores q Hst Hw Hq Hhit)).
-      unfold solve_end_to_end. rewrite Hhit. reflexivity.
-    - unfold solve_end_to_end. rewrite Hhit, check_nil. unfold solve_low_level.
+      rewrite e2e_eq, Hhit. reflexivity.
+    - rewrite !e2e_eq, Hhit, check_nil. unfold solve_low_level.
       destruct (low false q) as [m [|] | co | |] eqn:E; simpl; try reflexivity.
       destruct (refine_changes q); [|reflexivity].
       rewrite !strip_from_result. reflexivity.
@@ -249,7 +264,7 @@ Section CacheProofs.
 
   Lemma e2e_off_no_core : forall cores q, core_of id model (e2e false cores q) = None.
   Proof.
-    intros cores q. unfold solve_end_to_end, solve_low_level.
+    intros cores q. rewrite e2e_eq. unfold solve_low_level.
     destruct (check _ cores); [reflexivity|].
     destruct (low false q) as [m [|] | co | |]; simpl; try reflexivity.
     destruct (refine_changes q); [|reflexivity].
@@ -279,7 +294,7 @@ Section CacheProofs.
   Lemma e2e_sat_origin : forall cache cores q m v,
     e2e cache cores q = Sat m v -> exists b m' v', low b q = Sat m' v'.
   Proof.
-    intros cache cores q m v H. unfold solve_end_to_end, solve_low_level in H.
+    intros cache cores q m v H. rewrite e2e_eq in H. unfold solve_low_level in H.
     destruct (check _ cores); [discriminate|].
     destruct (low false q) as [m0 [|] | co | |] eqn:E; simpl in H; try discriminate.
     - exists false, m0, true. exact E.
@@ -292,11 +307,11 @@ Section CacheProofs.
   Proof.
     intros qs cores q Hst Hw Hss Hq.
     destruct (check (qids id formula q) cores) eqn:Hhit.
-    - right. split; [unfold solve_end_to_end; rewrite Hhit; reflexivity|].
+    - right. split; [rewrite e2e_eq, Hhit; reflexivity|].
       destruct (e2e false [] q) as [m v | | |] eqn:E; try reflexivity.
       exfalso. apply e2e_sat_origin in E. destruct E as [b [m' [v' E]]].
       apply (hit_unsat qs cores q Hst Hw Hq Hhit). eapply Hss; eauto.
-    - left. unfold solve_end_to_end. rewrite Hhit, check_nil. unfold solve_low_level.
+    - left. rewrite !e2e_eq, Hhit, check_nil. unfold solve_low_level.
       destruct (low false q) as [m [|] | co | |] eqn:E; simpl; try reflexivity.
       destruct (refine_changes q); [|reflexivity].
       rewrite !strip_from_result. reflexivity.
